@@ -83,3 +83,296 @@ theorem determinate [DecidableEq ι] {κ ν : Type} (S : Sys ι σ) (hd : S.Diam
   exact List.prefix_or_prefix_of_prefix (run_mono S hist hm a' sa sc r1 c) (run_mono S hist hm b' sb sc r2 c)
 
 end BMV.Kpn
+
+namespace BMV.Kpn
+
+/-! ### the bond network (producer ∥ one-place channel with fan-out ∥ consumers) is determinate -/
+
+theorem consumer_step (f : Nat → Nat) (c : Nat) (s s' : ChanState) :
+    chanStep f (.consumer c) s = some s' ↔
+      ∃ v g, s.full = some v ∧ s.taken[c]? = some false ∧ s.got[c]? = some g ∧ s' = afterTake s c v g := by
+  show consStep c s = some s' ↔ _
+  unfold consStep
+  constructor
+  · intro h
+    split at h
+    · rename_i v g h1 h2 h3
+      exact ⟨v, g, h1, h2, h3, (Option.some.inj h).symm⟩
+    · simp at h
+  · rintro ⟨v, g, h1, h2, h3, rfl⟩
+    simp only [h1, h2, h3]
+
+theorem producer_step (f : Nat → Nat) (s s' : ChanState) :
+    chanStep f .producer s = some s' ↔ s.full = none ∧ s' = { s with sent := s.sent + 1, full := some (f s.sent) } := by
+  show prodStep f s = some s' ↔ _
+  unfold prodStep
+  constructor
+  · intro h
+    split at h
+    · rename_i h1; exact ⟨h1, (Option.some.inj h).symm⟩
+    · simp at h
+  · rintro ⟨h1, rfl⟩; simp [h1]
+
+theorem not_all_of_false {l : List Bool} {d : Nat} (h : l[d]? = some false) : l.all id = false := by
+  rw [Bool.eq_false_iff]
+  intro hall
+  rw [List.all_eq_true] at hall
+  have := hall false (List.mem_of_getElem? h)
+  simp at this
+
+theorem chan_diamond (f : Nat → Nat) : (chanSys f).Diamond := by
+  intro i j s s1 s2 hij h1 h2
+  cases i with
+  | producer =>
+    cases j with
+    | producer => exact absurd rfl hij
+    | consumer d =>
+      obtain ⟨hf, _⟩ := (producer_step f s s1).mp h1
+      obtain ⟨v, g, hv, _⟩ := (consumer_step f d s s2).mp h2
+      rw [hf] at hv; cases hv
+  | consumer c =>
+    cases j with
+    | producer =>
+      obtain ⟨hf, _⟩ := (producer_step f s s2).mp h2
+      obtain ⟨v, g, hv, _⟩ := (consumer_step f c s s1).mp h1
+      rw [hf] at hv; cases hv
+    | consumer d =>
+      have hcd : c ≠ d := fun h => hij (by rw [h])
+      obtain ⟨v, g, hv, ht, hg, rfl⟩ := (consumer_step f c s s1).mp h1
+      obtain ⟨v', g', hv', ht', hg', rfl⟩ := (consumer_step f d s s2).mp h2
+      rw [hv] at hv'; cases hv'
+      -- after c (resp. d) alone the place is still full: the other one has not taken the value
+      have n1 : (s.taken.set c true).all id = false :=
+        not_all_of_false (d := d) (by rw [List.getElem?_set_ne hcd]; exact ht')
+      have n2 : (s.taken.set d true).all id = false :=
+        not_all_of_false (d := c) (by rw [List.getElem?_set_ne (Ne.symm hcd)]; exact ht)
+      have e1 : afterTake s c v g = { s with taken := s.taken.set c true, got := s.got.set c (g ++ [v]) } := by
+        simp [afterTake, n1]
+      have e2 : afterTake s d v g' = { s with taken := s.taken.set d true, got := s.got.set d (g' ++ [v]) } := by
+        simp [afterTake, n2]
+      refine ⟨afterTake (afterTake s c v g) d v g', ?_, ?_⟩
+      · exact (consumer_step f d _ _).mpr ⟨v, g', by rw [e1]; exact hv, by rw [e1]; simp [List.getElem?_set_ne hcd, ht'],
+          by rw [e1]; simp [List.getElem?_set_ne hcd, hg'], rfl⟩
+      · refine (consumer_step f c _ _).mpr ⟨v, g, by rw [e2]; exact hv, by rw [e2]; simp [List.getElem?_set_ne (Ne.symm hcd), ht],
+          by rw [e2]; simp [List.getElem?_set_ne (Ne.symm hcd), hg], ?_⟩
+        rw [e1, e2]
+        simp only [afterTake, List.set_comm _ _ (Ne.symm hcd)]
+
+/-- a consumer's received stream only grows -/
+theorem chan_mono (f : Nat → Nat) (i : Agent) (s s' : ChanState) (h : (chanSys f).step i s = some s') (c : Nat) :
+    s.got.getD c [] <+: s'.got.getD c [] := by
+  cases i with
+  | producer =>
+    obtain ⟨_, rfl⟩ := (producer_step f s s').mp h
+    exact List.prefix_refl _
+  | consumer d =>
+    obtain ⟨v, g, _, _, hg, rfl⟩ := (consumer_step f d s s').mp h
+    have hgot : (afterTake s d v g).got = s.got.set d (g ++ [v]) := by
+      unfold afterTake; split <;> rfl
+    rw [hgot]
+    by_cases hcd : c = d
+    · subst hcd
+      have hlt : c < s.got.length := (List.getElem?_eq_some_iff.mp hg).1
+      simp only [List.getD_eq_getElem?_getD, hg, List.getElem?_set_self hlt, Option.getD_some]
+      exact List.prefix_append _ _
+    · simp only [List.getD_eq_getElem?_getD, List.getElem?_set_ne (Ne.symm hcd)]
+      exact List.prefix_refl _
+
+
+/-! ### networks over one-place channels with fan-out are confluent -/
+
+variable {ι L : Type} [DecidableEq ι]
+
+@[simp] theorem upd_same {α β : Type} [DecidableEq α] (f : α → β) (a : α) (b : β) : upd f a b a = b := by simp [upd]
+theorem upd_ne {α β : Type} [DecidableEq α] (f : α → β) {a x : α} (b : β) (h : x ≠ a) : upd f a b x = f x := by simp [upd, h]
+theorem upd_comm {α β : Type} [DecidableEq α] (f : α → β) {a a' : α} (b b' : β) (h : a ≠ a') :
+    upd (upd f a b) a' b' = upd (upd f a' b') a b := by
+  funext x
+  unfold upd
+  by_cases h1 : x = a
+  · by_cases h2 : x = a'
+    · exact absurd (h1.symm.trans h2) h
+    · simp [h1, h]
+  · by_cases h2 : x = a'
+    · have : ¬ a' = a := fun e => h e.symm
+      simp [h2, this]
+    · simp [h1, h2]
+
+theorem all_cnt_congr (l : List Nat) (c c' : Nat → Nat) (n : Nat) (h : ∀ s ∈ l, c' s = c s) :
+    l.all (fun s => c' s == n) = l.all (fun s => c s == n) := by
+  induction l with
+  | nil => rfl
+  | cons a l ih =>
+    simp only [List.all_cons]
+    rw [h a (by simp), ih (fun s hs => h s (by simp [hs]))]
+
+/-- the conclusion of the diamond for an ordered pair of agents -/
+def Joins (N : ChanNet ι L) (i j : ι) (σ1 σ2 : NState ι L) : Prop :=
+  ∃ s3, N.step j σ1 = some s3 ∧ N.step i σ2 = some s3
+
+theorem Joins.symm {N : ChanNet ι L} {i j : ι} {σ1 σ2 : NState ι L} (h : Joins N i j σ1 σ2) : Joins N j i σ2 σ1 := by
+  obtain ⟨s3, a, b⟩ := h; exact ⟨s3, b, a⟩
+
+/-- an internal step against anything -/
+theorem join_internal (N : ChanNet ι L) (i j : ι) (σ σ1 σ2 : NState ι L) (hij : i ≠ j) (li : L)
+    (hai : N.act i (σ.loc i) = .internal li) (h1 : N.step i σ = some σ1) (h2 : N.step j σ = some σ2) :
+    Joins N i j σ1 σ2 := by
+  have hji : j ≠ i := fun e => hij e.symm
+  unfold ChanNet.step at h1 h2
+  simp only [hai, Option.some.injEq] at h1
+  subst h1
+  cases haj : N.act j (σ.loc j) with
+  | blocked => simp [haj] at h2
+  | internal lj =>
+    simp only [haj, Option.some.injEq] at h2
+    subst h2
+    refine ⟨{ σ with loc := upd (upd σ.loc i li) j lj }, ?_, ?_⟩
+    · simp [ChanNet.step, upd_ne _ _ hji, haj]
+    · simp [ChanNet.step, upd_ne _ _ hij, hai, upd_comm _ _ _ hij]
+  | write ch v lj =>
+    simp only [haj] at h2
+    split at h2
+    · rename_i hen
+      simp only [Option.some.injEq] at h2; subst h2
+      refine ⟨{ σ with loc := upd (upd σ.loc i li) j lj, sent := upd σ.sent ch (σ.sent ch + 1), val := upd σ.val ch v }, ?_, ?_⟩
+      · simp [ChanNet.step, upd_ne _ _ hji, haj, hen]
+      · simp [ChanNet.step, upd_ne _ _ hij, hai, upd_comm _ _ _ hij]
+    · cases h2
+  | read s ch k =>
+    simp only [haj] at h2
+    split at h2
+    · rename_i hen
+      simp only [Option.some.injEq] at h2; subst h2
+      refine ⟨{ σ with loc := upd (upd σ.loc i li) j (k (σ.val ch)), cnt := upd σ.cnt s (σ.cnt s + 1), got := upd σ.got s (σ.got s ++ [σ.val ch]) }, ?_, ?_⟩
+      · simp [ChanNet.step, upd_ne _ _ hji, haj, hen]
+      · simp [ChanNet.step, upd_ne _ _ hij, hai, upd_comm _ _ _ hij]
+    · cases h2
+
+theorem join_write_write (N : ChanNet ι L) (h : N.Owned) (i j : ι) (σ σ1 σ2 : NState ι L) (hij : i ≠ j)
+    (ch v : Nat) (li : L) (ch' v' : Nat) (lj : L)
+    (hai : N.act i (σ.loc i) = .write ch v li) (haj : N.act j (σ.loc j) = .write ch' v' lj)
+    (h1 : N.step i σ = some σ1) (h2 : N.step j σ = some σ2) : Joins N i j σ1 σ2 := by
+  have hji : j ≠ i := fun e => hij e.symm
+  have hch : ch ≠ ch' := by
+    intro e; subst e
+    exact hij ((h.write_own _ _ _ _ _ hai).symm.trans (h.write_own _ _ _ _ _ haj))
+  have hch' : ch' ≠ ch := fun e => hch e.symm
+  unfold ChanNet.step at h1 h2
+  simp only [hai] at h1
+  simp only [haj] at h2
+  split at h1
+  · rename_i en1
+    split at h2
+    · rename_i en2
+      simp only [Option.some.injEq] at h1 h2; subst h1 h2
+      refine ⟨{ σ with loc := upd (upd σ.loc i li) j lj,
+                       sent := upd (upd σ.sent ch (σ.sent ch + 1)) ch' (σ.sent ch' + 1),
+                       val := upd (upd σ.val ch v) ch' v' }, ?_, ?_⟩
+      · simp [ChanNet.step, upd_ne _ _ hji, haj, upd_ne _ _ hch', en2]
+      · simp [ChanNet.step, upd_ne _ _ hij, hai, upd_ne _ _ hch, en1, upd_comm _ _ _ hij, upd_comm _ _ _ hch]
+    · cases h2
+  · cases h1
+
+theorem join_write_read (N : ChanNet ι L) (h : N.Owned) (i j : ι) (σ σ1 σ2 : NState ι L) (hij : i ≠ j)
+    (ch v : Nat) (li : L) (s ch' : Nat) (k : Nat → L)
+    (hai : N.act i (σ.loc i) = .write ch v li) (haj : N.act j (σ.loc j) = .read s ch' k)
+    (h1 : N.step i σ = some σ1) (h2 : N.step j σ = some σ2) : Joins N i j σ1 σ2 := by
+  have hji : j ≠ i := fun e => hij e.symm
+  obtain ⟨_, hs⟩ := h.read_own _ _ _ _ _ haj
+  unfold ChanNet.step at h1 h2
+  simp only [hai] at h1
+  simp only [haj] at h2
+  split at h1
+  · rename_i en1
+    split at h2
+    · rename_i en2
+      simp only [Option.some.injEq] at h1 h2; subst h1 h2
+      have hch : ch' ≠ ch := by
+        intro e; subst e
+        have en1a := (Bool.and_eq_true _ _ ▸ en1).2
+        rw [List.all_eq_true] at en1a
+        have := en1a s hs
+        simp only [beq_iff_eq] at this
+        omega
+      have hslots : ∀ s' ∈ N.slotsOf ch, s' ≠ s := by
+        intro s' hs' e; subst e
+        exact hch (h.slot_chan _ _ _ hs hs')
+      refine ⟨{ σ with loc := upd (upd σ.loc i li) j (k (σ.val ch')),
+                       sent := upd σ.sent ch (σ.sent ch + 1), val := upd σ.val ch v,
+                       cnt := upd σ.cnt s (σ.cnt s + 1), got := upd σ.got s (σ.got s ++ [σ.val ch']) }, ?_, ?_⟩
+      · simp [ChanNet.step, upd_ne _ _ hji, haj, upd_ne _ _ hch, en2]
+      · have en1' : (!(N.slotsOf ch).isEmpty && (N.slotsOf ch).all (fun s' => upd σ.cnt s (σ.cnt s + 1) s' == σ.sent ch)) = true := by
+          rw [all_cnt_congr _ σ.cnt _ _ (fun s' hs' => upd_ne _ _ (hslots s' hs'))]; exact en1
+        simp [ChanNet.step, upd_ne _ _ hij, hai, en1', upd_comm _ _ _ hij]
+    · cases h2
+  · cases h1
+
+theorem join_read_read (N : ChanNet ι L) (h : N.Owned) (i j : ι) (σ σ1 σ2 : NState ι L) (hij : i ≠ j)
+    (s ch : Nat) (k : Nat → L) (s' ch' : Nat) (k' : Nat → L)
+    (hai : N.act i (σ.loc i) = .read s ch k) (haj : N.act j (σ.loc j) = .read s' ch' k')
+    (h1 : N.step i σ = some σ1) (h2 : N.step j σ = some σ2) : Joins N i j σ1 σ2 := by
+  have hji : j ≠ i := fun e => hij e.symm
+  have hss : s ≠ s' := by
+    intro e; subst e
+    exact hij ((h.read_own _ _ _ _ _ hai).1.symm.trans (h.read_own _ _ _ _ _ haj).1)
+  have hss' : s' ≠ s := fun e => hss e.symm
+  unfold ChanNet.step at h1 h2
+  simp only [hai] at h1
+  simp only [haj] at h2
+  split at h1
+  · rename_i en1
+    split at h2
+    · rename_i en2
+      simp only [Option.some.injEq] at h1 h2; subst h1 h2
+      refine ⟨{ σ with loc := upd (upd σ.loc i (k (σ.val ch))) j (k' (σ.val ch')),
+                       cnt := upd (upd σ.cnt s (σ.cnt s + 1)) s' (σ.cnt s' + 1),
+                       got := upd (upd σ.got s (σ.got s ++ [σ.val ch])) s' (σ.got s' ++ [σ.val ch']) }, ?_, ?_⟩
+      · simp [ChanNet.step, upd_ne _ _ hji, haj, upd_ne _ _ hss', en2]
+      · simp [ChanNet.step, upd_ne _ _ hij, hai, upd_ne _ _ hss, en1, upd_comm _ _ _ hij, upd_comm _ _ _ hss]
+    · cases h2
+  · cases h1
+
+/-- **a network of sequential agents over one-place channels with fan-out is confluent** -/
+theorem chanNet_diamond (N : ChanNet ι L) (h : N.Owned) : N.sys.Diamond := by
+  intro i j σ σ1 σ2 hij h1 h2
+  have hji : j ≠ i := fun e => hij e.symm
+  change N.step i σ = some σ1 at h1
+  change N.step j σ = some σ2 at h2
+  change Joins N i j σ1 σ2
+  cases hai : N.act i (σ.loc i) with
+  | blocked => simp [ChanNet.step, hai] at h1
+  | internal li => exact join_internal N i j σ σ1 σ2 hij li hai h1 h2
+  | write ch v li =>
+    cases haj : N.act j (σ.loc j) with
+    | blocked => simp [ChanNet.step, haj] at h2
+    | internal lj => exact (join_internal N j i σ σ2 σ1 hji lj haj h2 h1).symm
+    | write ch' v' lj => exact join_write_write N h i j σ σ1 σ2 hij ch v li ch' v' lj hai haj h1 h2
+    | read s ch' k => exact join_write_read N h i j σ σ1 σ2 hij ch v li s ch' k hai haj h1 h2
+  | read s ch k =>
+    cases haj : N.act j (σ.loc j) with
+    | blocked => simp [ChanNet.step, haj] at h2
+    | internal lj => exact (join_internal N j i σ σ2 σ1 hji lj haj h2 h1).symm
+    | write ch' v' lj => exact (join_write_read N h j i σ σ2 σ1 hji ch' v' lj s ch k haj hai h2 h1).symm
+    | read s' ch' k' => exact join_read_read N h i j σ σ1 σ2 hij s ch k s' ch' k' hai haj h1 h2
+
+/-- what a slot has received only grows -/
+theorem chanNet_mono (N : ChanNet ι L) (i : ι) (σ σ' : NState ι L) (h : N.sys.step i σ = some σ') (s : Nat) :
+    σ.got s <+: σ'.got s := by
+  change N.step i σ = some σ' at h
+  unfold ChanNet.step at h
+  split at h
+  · cases h; exact List.prefix_refl _
+  · cases h
+  · split at h
+    · cases h; exact List.prefix_refl _
+    · cases h
+  · split at h
+    · cases h
+      rename_i s0 ch k _ _
+      by_cases e : s = s0
+      · subst e; simp only [upd_same]; exact List.prefix_append _ _
+      · simp only [upd_ne _ _ e]; exact List.prefix_refl _
+    · cases h
+
+
+end BMV.Kpn
